@@ -41,7 +41,7 @@ def cell_any(draw, oriented="lammps"):
 
 @st.composite
 def typed_structure(draw, min_atoms=1, max_atoms=8, tag_base=0, cell="lammps", term_modes=None, max_terms=4,
-                    extras=True, pair=None, label_prefix="", coords="in-cell"):
+                    extras=True, pair=None, label_prefix="", coords="in-cell", dups=False):
     """a spec (see model_atoms).  Charges are unique identity tags: tag_base + 0.001*(i+1) with alternating sign."""
     n = draw(st.integers(min_atoms, max_atoms))
     spec = M.empty_spec()
@@ -90,8 +90,8 @@ def typed_structure(draw, min_atoms=1, max_atoms=8, tag_base=0, cell="lammps", t
         for _ in range(nt):
             t = list(draw(st.permutations(range(n))))[:size]
             key = min(tuple(t), tuple(t[::-1]))
-            if key in seen:
-                continue
+            if key in seen and not (dups and draw(st.integers(0, 2)) == 0):
+                continue          # mostly distinct tuples; now and then a second term on the same atoms (multi-term torsion)
             seen.add(key)
             spec[kind + "s"].append(t)
             spec[kind + "_types"].append(draw(st.integers(0, ntt - 1)))
